@@ -2,7 +2,7 @@ import Pywbem.Model.CimJson
 import Pywbem.Model.Ops
 import Pywbem.Model.OpsMeth
 open Lean Pywbem.Proto Pywbem.Model Pywbem.Model.CimJson Pywbem.Model.XmlText Pywbem.Model.Ops
-open Pywbem.Generated.OpsSig Pywbem.Model.OpsMeth
+open Pywbem.Generated.OpsSig Pywbem.Model.OpsMeth Pywbem.Model.XmlParse
 
 /-! C04 driver.  One request per executed operation:
   {"op":"full","dflt":cps|null,"name":str,"args":{kw:arg},"host":cps,"reqtree":tt|null,
